@@ -219,3 +219,78 @@ func VerifHarness_C09_getters() {
 	}
 	_ = m.Body.Has(tag)
 }
+
+func init() { verifRegister("C09_session", VerifHarness_C09_session) }
+
+// C09_session: a logged-on session is fed one bounded-arbitrary frame through Incoming (frames always end
+// in SOH 10=...SOH, as the stream parser produces them), then a well-formed TestRequest with the number
+// expected at that moment: nothing panics, and unless the first frame legitimately ended the logon the
+// TestRequest is answered by a Heartbeat with the same TestReqID.
+func VerifHarness_C09_session() {
+	r := verifNewSession(false, BeginStringFIX42)
+	if ndBool("with-dictionary") {
+		r.s.appDataDictionary = c09Dict()
+	}
+	T := ndInt("T", 10, 40)
+	r.setCounters(T, 3)
+	kind := verifConc(ndInt("state", 0, 2))
+	switch kind {
+	case 0:
+		r.verifLoggedOnState(stInSession, T)
+	case 1:
+		r.app.inLogon = true
+		r.s.State = resendState{resendRangeEnd: T + 2}
+	case 2:
+		r.verifLoggedOnState(stPendingInSession, T)
+	}
+	// ---- the garbage frame
+	var b []byte
+	b = verifFieldText(b, []byte("8"), []byte("FIX.4.2"))
+	b = verifFieldText(b, []byte("9"), verifValue("bodylength", 2))
+	mt := verifValue("msgtype", 1)
+	b = verifFieldText(b, []byte("35"), mt)
+	nfree := verifConc(ndInt("free", 0, verifBound(1, 2)))
+	for i := 0; i < nfree; i++ {
+		switch verifConc(ndInt("kind", 0, 5)) {
+		case 0:
+			b = verifFieldText(b, []byte("34"), verifValue("seq", 2))
+		case 1:
+			b = verifFieldText(b, []byte("49"), verifValue("sender", 2))
+		case 2:
+			b = verifFieldText(b, []byte("52"), verifValue("time", 1))
+		case 3:
+			b = verifFieldText(b, []byte("212"), verifValue("xmllen", 1))
+		case 4:
+			b = verifFieldText(b, []byte("43"), verifValue("possdup", 1))
+		case 5:
+			b = append(append(b, verifValue("junk", 2)...), verifSOH)
+		}
+	}
+	b = verifFieldText(b, []byte("10"), verifValueN("cs", 3))
+	r.s.Incoming(r.s, fixIn{bytes: bytes.NewBuffer(b), receiveTime: time.Now()})
+	r.pump()
+	r.drain()
+	if !r.s.IsLoggedOn() {
+		verifCase("first-frame-ended-the-logon")
+		return
+	}
+	verifCase("still-logged-on")
+	// ---- the next well-formed message is processed
+	T1 := r.st.NextTargetMsgSeqNum()
+	_, recovering := r.s.State.(resendState)
+	tr := r.inbound("1", T1)
+	tr.Body.SetString(tagTestReqID, "PING")
+	r.s.Incoming(r.s, fixIn{bytes: bytes.NewBuffer(tr.build()), receiveTime: time.Now()})
+	r.pump()
+	ws := r.drain()
+	if !recovering || true {
+		n := 0
+		for i := range ws {
+			if id, ok := ws[i].get(112); ws[i].is("0") && ok && string(id) == "PING" {
+				n++
+			}
+		}
+		verifAssert(n == 1, "next-well-formed-message-processed-after-garbage")
+	}
+	verifObserve("sent", len(ws))
+}
